@@ -5,63 +5,75 @@ import os
 
 VERIF = os.path.dirname(os.path.dirname(os.path.abspath(__file__)))
 
-TB = ("Trusted: Coq 8.16.1 kernel incl. vm_compute (no native_compute); no axioms (Print Assumptions parsed on every run); "
+TB = ("Trusted: Coq 8.16.1 kernel incl. vm_compute (no native_compute); no axioms at all - Print Assumptions of every property theorem is parsed on every run; "
       "ExtrOcamlBasic extraction + OCaml 4.13.1; hand-written glue (ocaml/driver.ml, harness/*.go, run.py, tools/*.py). "
       "The Go code is tied to the model by regenerated facts (re-proved per run) and by differential correspondence on generated inputs only.")
 
 # id -> (technique, level text, design_ref, note-extra)
 CHECKS = {
-    "C01": ("Coq theorems on the axis/node-test model + differential correspondence (every node x 13 axes x 14 node tests per document)",
-            "Theorems: the selectors of the model compute exactly the declarative XPath axis relations on node paths (partition, converses, root clauses); "
-            "the model is tied to exec/axisselectors.go and contextfn_paths.go by per-run facts (axis switch, implicit-child list, absolute-path handlers) and by exhaustive-per-document correspondence.", "5 C01", ""),
+    "C01": ("Coq theorem select_exact (selectors = XPath axis relations on node paths) + differential correspondence (every node x 13 axes x 18 node tests per document)",
+            "Theorems: for every document whose positions follow document order (every store-built tree, C10), every valid context node of every kind and every axis, the model selector returns exactly the valid nodes the axis relation relates to it, in axis order; "
+            "the five-way partition (total and disjoint), the four converse pairs, the root clauses; node tests by kind / principal node type; absolute paths start at the root. "
+            "Tie: per-run facts (axis switch, implicit-child list, absolute-path handlers) proved by coqc + exhaustive-per-document correspondence and random multi-step paths.", "5 C01, 15", ""),
     "C02": ("Coq theorems on the predicate evaluator + correspondence + metamorphic identities",
-            "Theorems: [n] is [position()=n]; last() is the number of candidates that reached the predicate; successive predicates renumber; results are order-preserving sub-sequences; filter expressions number in document order. "
-            "Tie: facts (handlers for filter paths registered) + correspondence over predicate-bearing paths.", "5 C02", ""),
+            "Theorems: candidates per context node in axis order; position = index, size = number of candidates; [n] is [position()=n] for every number-valued predicate; NaN/fractions/out-of-range select nothing; successive predicates renumber; results are ordered sub-sequences; "
+            "filter expressions number in document order and a continued path starts from the filtered nodes. Tie: facts (filter-path handlers, position/last registered) + correspondence over predicate-bearing paths and filter paths.", "5 C02, 15", ""),
     "C03": ("Coq theorems on sort-by-Pos/dedup and union + correspondence + direct invariant checks on every returned node-set",
-            "Theorems (all inputs): every step/union/filter result is strictly monotone in Pos (so duplicate-free, never mixed); union is commutative, associative, idempotent as list equality. "
-            "Tie: correspondence of node-set valued expressions; invariants also checked directly on the implementation's output in true document order.", "5 C03", ""),
+            "Theorems (all inputs): every step/union/filter result is strictly monotone in Pos (so duplicate-free, never mixed); union is commutative, associative, idempotent as list equality; with C10 (pos_monotone) Pos order is document order. "
+            "Tie: correspondence of node-set valued expressions; invariants also checked directly on the implementation's output in true document order.", "5 C03, 15", ""),
     "C04": ("Coq theorems on the conversion functions (SpecFloat doubles, code-point strings) + correspondence by double/string class",
-            "Theorems: string-value, number/boolean/string conversions incl. the XPath Number grammar, special values, read-back of number rendering. Tie: facts (string/number/boolean/not registered) + correspondence.", "5 C04", ""),
+            "Theorems: string-value = concatenated descendant text (all trees); node-set -> string uses the first node in document order; the XPath Number grammar (accepted numerals convert to the correctly rounded value; any other character makes NaN); special renderings; "
+            "boolean conversions; the conversions are the ones operators, predicates and builtin arguments apply. Not proved: that the model's shortest-digit generator always satisfies the relational rendering clause (checked on the implementation's strings). Tie: facts + correspondence.", "5 C04, 15", ""),
     "C05": ("Coq theorems on the comparison cascade + correspondence over operand type pairs",
-            "Theorems: existential semantics, NaN, empty node-sets, L<R iff R>L, symmetry of = and !=, witness that = and != can both hold. Tie: correspondence (4x4 types x 6 operators x both orders).", "5 C05", ""),
+            "Theorems (all operand values): existential semantics for every node-set pairing, typed cascade otherwise, relational always numeric, NaN unordered, empty node-set false, compare_flip (L<R iff R>L, L<=R iff R>=L, = and != symmetric). "
+            "Tie: correspondence (4x4 types x 6 operators x both orders, enumerated per document).", "5 C05, 15", ""),
     "C06": ("Coq theorems on floor/ceiling/round/mod/sum over exact dyadic arithmetic + correspondence by double class",
-            "Theorems: floor/round characterisations on exact values, fmod division identity and sign, sum without truncation, count; refutation lemma for the known negative-tie rounding. Tie: facts + correspondence on result bit patterns.", "5 C06", ""),
+            "Theorems: round = the integer n with n-1/2 <= x < n+1/2 on the exact value; floor bounds; mod = remainder of the exact scaled operands with the dividend's sign and all special cases; sum is a left fold of number(); totality of the operators and functions; "
+            "the library's round() differs from XPath round() on negative ties and nowhere else (open known finding). Tie: facts + correspondence on result bit patterns.", "5 C06, 15", ""),
     "C07": ("Coq theorems on the string functions over code-point lists + correspondence over a Unicode pool",
-            "Theorems: contains/starts-with/substring-before/after decompositions, substring by IEEE comparisons, normalize-space, translate, string-length = number of characters. Tie: facts (functions registered) + correspondence.", "5 C07", ""),
-    "C08": ("per-run regenerated grammar/handler facts proved by coqc + render/parse correspondence of generated ASTs and malformed strings",
-            "Per run: grammar text = generated parser tables; every production with two or more nonterminal children has a handler (nothing silently dropped); handlers index only children that exist; core library registered. "
-            "Correspondence: every generated AST under minimal/redundant parentheses and arbitrary legal whitespace must compile and evaluate like the model of the AST; mutated strings must be rejected or evaluate like a model AST.", "5 C08",
+            "Theorems: contains/starts-with/substring-before/after as list decompositions with the shortest prefix, substring as an IEEE window over 1-based positions, normalize-space (words, idempotence), translate (simultaneous, first occurrence), membership (UTF-8 validity preserved). "
+            "Tie: facts (functions registered) + correspondence.", "5 C07, 15", ""),
+    "C08": ("per-run grammar/handler table proofs by coqc + model parser validated on every run + render/parse correspondence of generated ASTs and mutated strings",
+            "Per run (proved by coqc on tables regenerated from the source): grammar text = generated parser tables; every production with two or more nonterminal children has a handler; handlers index only children that exist; core library registered. "
+            "Proved once: the precedence table is a function; kernel-evaluated instances of precedence, associativity, token disambiguation, abbreviations = expansions. NOT proved: the round trip parse(render e) = e for all ASTs - it is validated on every run "
+            "(every rendering of every generated AST is parsed by the model parser and must evaluate like the AST) and the implementation is compared with that parser on renderings (minimal/redundant parentheses, arbitrary whitespace), token-boundary cases and mutated strings.", "5 C08, 15.2",
             " gogll's generation of parser.go/lexer.go from the grammar is trusted and exercised, not proved."),
-    "C09": ("Coq model of the XML adapter over encoding/xml tokens + theorems + correspondence on generated XML texts",
-            "Theorems about the adapter model (namespace declarations vs attributes, character-data merging, XML declaration skipped) composed with the store model; tie: correspondence on serialisations of abstract documents and malformed texts.", "5 C09",
-            " encoding/xml (bytes to tokens) is an oracle whose token stream is recorded by the harness."),
+    "C09": ("Coq model of the XML adapter over encoding/xml tokens + data-model theorem + correspondence on generated XML texts",
+            "Theorems: for every well-formed abstract document under all serialisation choices the adapter's events are the XPath data model (declarations vs attributes, merged character data, XML declaration, DOCTYPE, top-level white space); namespace scoping of the store; a decoder error never yields a tree. "
+            "Tie: ReadXml tree vs the model on the abstract document AND on the token stream recorded from encoding/xml for the same bytes; malformed texts.", "5 C09, 15",
+            " encoding/xml (bytes to tokens, entities, charsets) is an oracle whose token stream is recorded by the harness."),
     "C10": ("Coq invariant proof over the store's event consumer + correspondence on scripted parser streams + 10^6-event stack probe",
-            "Theorems (all conforming streams): Pos is strictly increasing in document order (unique; 0 only at the root; element < namespaces < attributes < children), every element owns its namespace nodes. "
-            "Tie: fact 'createInMemory is a loop' + full-tree dump correspondence incl. every Pos() and Parent() identity. Stack use of the real goroutine is measured (partial clause).", "5 C10", ""),
-    "C11": ("Coq theorems on name resolution + correspondence under varied binding environments and instrumented user functions",
-            "Theorems: variables return exactly the bound value, user functions take precedence over builtins and receive the evaluated arguments and context, unbound references are errors, name tests use only the query's bindings; renaming invariance. Tie: correspondence.", "5 C11", ""),
+            "Theorems (all conforming streams): Pos is strictly increasing in document order (unique; 0 only at the root; element < namespaces < attributes < children), inherited namespace nodes are fresh nodes of the element. "
+            "Tie: fact 'createInMemory is a loop' + full-tree dump correspondence incl. every Pos() and Parent() identity. Stack use of the real goroutine is measured (partial clause).", "5 C10, 15", ""),
+    "C11": ("Coq theorems on name resolution incl. renaming invariance for all expressions + correspondence under varied binding environments and instrumented user functions",
+            "Theorems: variables return exactly the bound value, user functions take precedence over builtins and receive the evaluated arguments and context, unbound references are errors, name tests use only the query's bindings; "
+            "invariance under consistent prefix renaming for every expression (nested induction over the AST). Tie: correspondence incl. metamorphic renamings.", "5 C11, 15", ""),
     "C12": ("Coq theorems on name()/local-name()/namespace-uri()/lang()/count() + correspondence from every node",
-            "Theorems: lang matching is ASCII-case-insensitive equality or prefix followed by '-'; name functions by node kind on the first node in document order. Tie: facts + correspondence.", "5 C12", ""),
-    "C13": ("Coq slice/heap model with frame theorem over call histories + history correspondence with deep snapshots",
-            "Theorems: operations that write only freshly allocated arrays leave every pre-existing array unchanged, for every history; determinism of the model. Tie: histories of Exec/Unmarshal over shared cursors, expressions and result slices with deep before/after snapshots.", "5 C13",
-            " That the Go code performs no other writes rests on the snapshots, not on a Go semantics."),
-    "C14": ("Coq interleaving theorem (read-only shared state) + race-detector stress and CLI -c N vs -c 1 comparison",
-            "Theorem: for every interleaving, threads that do not write shared locations compute their solo results; CLI output is a permutation of intact per-file blocks. Runtime side (Go memory model, scheduler, write atomicity) is measured with -race builds: partial clause.", "5 C14", ""),
-    "C15": ("Coq no-panic theorems for the index arithmetic of the model + per-run facts + malformed-input streams through every public entry point",
-            "Theorems: slice/index primitives of the modelled code never leave their domain; per run: handlers only index existing children, Exec recovers. Fuzz streams (subprocess-observed) for the third-party/generated parsers: partial clause.", "5 C15", ""),
+            "Theorems: name parts by node kind on the first node in document order; name = local-name or {uri}local; lang = ASCII-case-insensitive equality or prefix followed by '-' against the nearest xml:lang of the ancestor-or-self elements; count of a non-node-set is an error. Tie: facts + correspondence.", "5 C12, 15", ""),
+    "C13": ("Coq slice/heap model with frame theorem over call histories + per-run proof that every append/sort site in exec/ writes a fresh slice (go/ast translator) + history correspondence with deep snapshots",
+            "Theorems: for every heap and every history of allocations, appends (in place when capacity allows) and in-place sorts obeying the discipline, every pre-existing array is unchanged; the repaired union writes only arrays it allocated; refutation of the union as it was. "
+            "Per run: every append / sort.Sort site of exec/ is classified fresh (proved by coqc over the extracted table). Tie: histories of Exec over shared cursors, expressions and caller-held node-sets with spare capacity; deep before/after snapshots; history-free model.", "5 C13, 15",
+            " That the Go code performs no other writes rests on the syntactic discipline check plus the snapshots, not on a Go semantics."),
+    "C14": ("Coq interleaving theorem (read-only shared state) + the C13 discipline per run + race-detector build: concurrent vs serial results, CLI -c N vs -c 1",
+            "Theorems: for every schedule, threads that do not write shared locations leave the shared state unchanged and compute their solo results; no conflicting access pairs; CLI output is the per-file blocks in completion order, each contiguous. "
+            "Runtime side (Go memory model, scheduler, write atomicity) is measured with a -race build of harness and command: partial clause.", "5 C14, 15", ""),
+    "C15": ("Coq no-panic theorems (Unmarshal's reflection dispatch, JSON adapter stack, HTML walk, slice bounds of the axis helpers) + per-run facts + subprocess fuzzing of every public entry point",
+            "Theorems: Unmarshal never reaches a reflect operation outside its domain for any well-typed target; the JSON adapter never pops an empty stack on value tokens; the HTML walk runs to EOF; children[index+1:] and children[:index] are in bounds under the code's guards. "
+            "Per run: handlers index only existing children, Exec recovers. Totality of the third-party and generated parsers on arbitrary bytes is fuzzed in a child process, not proved (partial clause).", "5 C15, 15", ""),
     "C16": ("Coq model of the JSON adapter state machine + theorem (adapter = README mapping) + correspondence on generated JSON texts",
-            "Theorem (all JSON values, any nesting): the adapter's event stream for the tokens of a value list is the documented #obj/#arr mapping; truncation is an error. Tie: correspondence incl. truncations/mutations.", "5 C16",
+            "Theorems (all JSON value lists, any nesting): the adapter's event stream is the documented #obj/#arr mapping; a token stream that stops inside a container ends in an error. Tie: ReadJson tree vs the mapping of the VALUE and vs the adapter model on the recorded tokens; truncations/mutations.", "5 C16, 15",
             " encoding/json's tokenizer is an oracle."),
-    "C17": ("Coq model of the HTML adapter's DOM walk + theorem + correspondence against x/net/html's DOM on generated tag soup",
-            "Theorem: the flag-driven walk emits exactly the events of the DOM (nothing skipped or duplicated). Tie: correspondence against an independent recursive walk of html.Parse's DOM.", "5 C17",
+    "C17": ("Coq model of the HTML adapter's DOM walk + mirror theorem + correspondence against x/net/html's DOM on generated tag soup",
+            "Theorem: for every DOM that starts with the doctype the flag-driven walk emits exactly the events of the DOM (nothing skipped or duplicated), then EOF; attribute filtering lemmas. Tie: ReadHtml tree vs the walk model on html.Parse's DOM dumped by an independent recursive walk.", "5 C17, 15",
             " The HTML5 parsing algorithm itself is x/net/html (oracle)."),
     "C18": ("Coq composition theorems + correspondence from every starting node and every split point",
-            "Theorems: evaluating P followed by R is evaluating R from the result of P; a step over a node-set is the cleaned union of the step from each node. Tie: correspondence incl. P/f() = f(P).", "5 C18", ""),
-    "C19": ("Coq model of the reflection dispatch with explicit panics + no-panic theorem + correspondence on generated target types",
-            "Theorems: the dispatch never reaches a panicking reflect operation; supported targets get converted values, unsupported ones an error. Tie: field values vs separate Exec calls on generated struct/slice types.", "5 C19",
+            "Theorems: evaluating P followed by R is evaluating R from the result of P; a step over a node-set selects exactly the union of the step from each node; Exec seeds position 1 / size 1; P/f() is f in the context of P. Tie: correspondence incl. P/f() = f(P) after reverse axes.", "5 C18, 15", ""),
+    "C19": ("Coq model of the reflection dispatch with explicit panics + no-panic theorem + correspondence on reflect.StructOf-generated target types",
+            "Theorems: the dispatch never reaches a panicking reflect operation (all fuel, results, well-typed targets); tagged fields get converted results behind freshly allocated pointers, untagged fields are untouched, slices grow by one element per node; unsupported targets and wrong-shaped results are errors. "
+            "Tie: complete target value after xsel.Unmarshal (descriptor derived by reflection) vs the model; pointer freshness checked directly.", "5 C19, 15",
             " reflect is modelled from its documentation."),
-    "C20": ("Coq model of the CLI's record formatting + theorems + correspondence with the freshly built binary on generated directory trees",
-            "Theorems: number and shape of records per result/flag combination, prefix rule. Tie: stdout of the binary vs records derived from the library API.", "5 C20",
+    "C20": ("Coq model of the CLI's records and file walk + theorems + byte-for-byte correspondence with the freshly built command on generated directory trees",
+            "Theorems: number and shape of records per result/flag combination, single-line -m records, prefix rule, failing files print nothing and affect nothing else, directories need -r. Tie: stdout of the built command vs the model's records computed from the library's own results; -m records re-parsed and compared with the selected subtree.", "5 C20, 15",
             " OS, filesystem, mime tables and encoding/xml's encoder are observed, not proved."),
 }
 
